@@ -525,6 +525,23 @@ void mmd_export_toc_latex(DString * out, const char * source, scratch_pad * scra
 }
 
 
+/// Export the content of a note that is printed in place.  The note is emptied
+/// meanwhile, so that a note which (directly or indirectly) refers to itself is
+/// not expanded again and again.
+static void mmd_export_note_content_latex(DString * out, const char * source, footnote * note, scratch_pad * scratch) {
+	if (note == NULL) {
+		return;
+	}
+
+	token * content = note->content;
+	note->content = NULL;
+
+	mmd_export_token_tree_latex(out, source, content, scratch);
+
+	note->content = content;
+}
+
+
 void mmd_export_token_latex(DString * out, const char * source, token * t, scratch_pad * scratch) {
 	if (t == NULL) {
 		return;
@@ -1569,7 +1586,7 @@ parse_citation:
 					print_const("\\footnote{");
 					temp_note = stack_peek_index(scratch->used_footnotes, temp_short - 1);
 
-					mmd_export_token_tree_latex(out, source, temp_note->content, scratch);
+					mmd_export_note_content_latex(out, source, temp_note, scratch);
 					print_const("}");
 				} else {
 					// This is the first time this note was used
@@ -1577,7 +1594,7 @@ parse_citation:
 					temp_note = stack_peek_index(scratch->used_footnotes, temp_short - 1);
 					// Reset padding counter in case of multiple footnotes in single paragraph
 					scratch->padded = 2;
-					mmd_export_token_tree_latex(out, source, temp_note->content, scratch);
+					mmd_export_note_content_latex(out, source, temp_note, scratch);
 					print_const("}");
 				}
 			} else {
@@ -1642,7 +1659,7 @@ parse_citation:
 						print_const(", description={");
 
 						// We skip over temp_note->content, since that is the term in use
-						mmd_export_token_tree_latex(out, source, temp_note->content, scratch);
+						mmd_export_note_content_latex(out, source, temp_note, scratch);
 						print_const("}}\\gls{");
 						print(temp_note->clean_text);
 						print_const("}");
